@@ -108,6 +108,11 @@ pub fn worker<F: Family>(seed: u64, tier: Tier, from: u64, to: u64, trace_idx: b
             let _ = out.flush();
         }
         let scn = gen_scenario::<F>(seed, tier, i);
+        if F::long_running(&scn) {
+            // a scale scenario (seconds of real work): tell the parent not to mistake it for a hang
+            let _ = writeln!(out, "L {}", i);
+            let _ = out.flush();
+        }
         let ctx = exec_guarded::<F>(&scn, false);
         st.runs += 1;
         st.ops += ctx.ops;
@@ -227,8 +232,18 @@ fn self_exe() -> PathBuf {
     std::env::current_exe().expect("current_exe")
 }
 
+/// Allowance for one announced scale scenario (normally 0.2-3 s; a loaded machine or a
+/// debug-assertion build may need many times that).
+pub const LONG_ALLOWANCE: Duration = Duration::from_secs(240);
+
+/// Does this replay file hold a scale scenario (see `Family::long_running`)?
+fn file_is_long(path: &Path) -> bool {
+    std::fs::read_to_string(path).map(|t| ["\"giant\":{", "\"giant\": {", "\"huge\":{", "\"huge\": {"].iter().any(|k| t.contains(k))).unwrap_or(false)
+}
+
 /// Run `sim replay-child` on a file with a timeout.
 pub fn run_replay_child(prop: &str, path: &Path, timeout: Duration) -> ChildOutcome {
+    let timeout = if file_is_long(path) { timeout + LONG_ALLOWANCE } else { timeout };
     let mut child = match Command::new(self_exe())
         .arg("replay-child")
         .arg(prop)
@@ -412,6 +427,8 @@ struct WorkerState {
     to: u64,
     last_p: u64,
     last_seen: Instant,
+    /// a scale scenario announced itself: no stall detection before this instant
+    long_until: Option<Instant>,
     vlines: Vec<VLine>,
     sline: Option<SLine>,
     done: bool,
@@ -461,6 +478,9 @@ fn find_culprit(prop: &str, seed: u64, tier: Tier, from: u64, to: u64, per_run: 
                     g.0 = Some(i);
                     g.1 = Instant::now();
                 }
+            } else if l.starts_with("L ") {
+                // scale scenario: the per-run limit starts counting after the allowance
+                l2.lock().unwrap().1 = Instant::now() + LONG_ALLOWANCE;
             } else if l.starts_with("S ") {
                 l2.lock().unwrap().2 = true;
             }
@@ -565,6 +585,7 @@ pub fn parent<F: Family>(opts: &Opts) -> i32 {
                 to: seg.to,
                 last_p: seg.from,
                 last_seen: Instant::now(),
+                long_until: None,
                 vlines: vec![],
                 sline: None,
                 done: false,
@@ -574,6 +595,11 @@ pub fn parent<F: Family>(opts: &Opts) -> i32 {
                 for l in BufReader::new(stdout).lines().map_while(Result::ok) {
                     let mut g = st2.lock().unwrap();
                     g.last_seen = Instant::now();
+                    if l.starts_with("L ") {
+                        g.long_until = Some(Instant::now() + LONG_ALLOWANCE);
+                        continue;
+                    }
+                    g.long_until = None;
                     if let Some(r) = l.strip_prefix("P ") {
                         if let Ok(i) = r.trim().parse::<u64>() {
                             g.last_p = i;
@@ -613,8 +639,11 @@ pub fn parent<F: Family>(opts: &Opts) -> i32 {
                     }
                 }
                 Ok(None) => {
-                    let seen = slots[i].state.lock().unwrap().last_seen;
-                    if seen.elapsed() > stall {
+                    let (seen, long_until) = {
+                        let g = slots[i].state.lock().unwrap();
+                        (g.last_seen, g.long_until)
+                    };
+                    if seen.elapsed() > stall && long_until.map(|t| Instant::now() > t).unwrap_or(true) {
                         let _ = slots[i].child.kill();
                         let _ = slots[i].child.wait();
                         done = true;
@@ -915,7 +944,8 @@ pub fn parent<F: Family>(opts: &Opts) -> i32 {
                     match c.try_wait() {
                         Ok(Some(_)) => break,
                         Ok(None) => {
-                            if start.elapsed() > Duration::from_secs(if tier == Tier::Quick { 45 } else { 120 }) {
+                            let limit = Duration::from_secs(if tier == Tier::Quick { 45 } else { 120 }) + if file_is_long(&raw) { LONG_ALLOWANCE } else { Duration::ZERO };
+                            if start.elapsed() > limit {
                                 let _ = c.kill();
                                 let _ = c.wait();
                                 break;
